@@ -149,6 +149,7 @@ func scenario(p params, bounds []int) *vexp.Scenario {
 			fwdRef, _ := wa.Sys.CreateRef(faddr, "/fwd")
 			var pingErr error
 			var pinged, asked bool
+			var onceBase int64
 			wa.SpawnRoot(&vsys.Script{Name: "caller",
 				OnMsg: func(a *vsys.Act, ctx vivid.ActorContext, m vsys.Msg) {
 					switch m.ID {
@@ -161,6 +162,15 @@ func scenario(p params, bounds []int) *vexp.Scenario {
 						// the receiver lives on the other system under the SAME path as the owner of the job
 						ns, _ := wa.Sys.CreateRef(addrB, "/caller")
 						ctx.Scheduler().Once(ns, time.Second, payload("once-ns"), vivid.WithSchedulerReference("ns"))
+					case "once-next-to-stuck":
+						// four jobs whose receiver lives on a system that is down (each delivery attempt sits in the reconnect back-off
+						// for a long time), and one job for the owner itself that becomes due while they are stuck
+						dead, _ := wa.Sys.CreateRef("127.0.0.1:1999", "/nobody")
+						for i := 0; i < 4; i++ {
+							ctx.Scheduler().Once(dead, time.Second, payload("stuck"), vivid.WithSchedulerReference(fmt.Sprintf("stuck%d", i)))
+						}
+						ctx.Scheduler().Once(ctx.Ref(), 1500*time.Millisecond, payload("once-local"), vivid.WithSchedulerReference("local"))
+						onceBase = vrt.Now()
 					case "bad-tell":
 						ctx.Tell(target, &vcodec.ShortTagMsg{Tag: strings.Repeat("t", 300)})
 					case "tell":
@@ -205,6 +215,9 @@ func scenario(p params, bounds []int) *vexp.Scenario {
 				OnOther: func(a *vsys.Act, ctx vivid.ActorContext, m any) {
 					if s := text(m); s == "once-ns" {
 						callerSaw = append(callerSaw, "scheduled:"+s)
+					}
+					if s := text(m); s == "once-local" {
+						callerSaw = append(callerSaw, fmt.Sprintf("scheduled:%s@%v", s, time.Duration(vrt.Now()-onceBase)))
 					}
 				},
 				OnKilled: func(a *vsys.Act, ctx vivid.ActorContext, m *vivid.OnKilled) {
@@ -291,6 +304,12 @@ func scenario(p params, bounds []int) *vexp.Scenario {
 				target, _ = wa.Sys.CreateRef(taddr, "/target")
 			}
 			switch p.op {
+			case "once-next-to-stuck":
+				do("once-next-to-stuck")
+				settle(40 * time.Second)
+				if got := strings.Join(callerSaw, ","); got != "scheduled:once-local@1.5s" {
+					x.Fail("scheduled-message-delivered", "a Once for the owner itself, due 1.5 s after it was scheduled while four deliveries to an unreachable system were stuck in their reconnect back-off: the owner saw %v, expected exactly one delivery at 1.5 s", callerSaw)
+				}
 			case "once-to-namesake":
 				do("once-to-namesake")
 				settle(3 * time.Second)
@@ -475,6 +494,7 @@ func build(tier string) []*vexp.Scenario {
 		return scenario(params{op: "watch-kill", remote: true, pre: "first-contact"}, []int{0, 1, 2})
 	})...)
 	out = append(out, scenario(params{op: "once-to-namesake", remote: true}, []int{0}))
+	out = append(out, scenario(params{op: "once-next-to-stuck", remote: true}, []int{0}))
 	// the same operations after the peer was unreachable for longer than the retry window, issued shortly before it is back
 	for _, op := range []string{"tell", "ask", "kill", "watch", "ping", "pipe-ok", "pipe-remote-forwarder"} {
 		for _, remote := range []bool{false, true} {
